@@ -117,6 +117,52 @@ def _main_match(fn):
     return found[0] if found else None
 
 
+def _frame(body):
+    """a parser function's body with its arm table (outermost string match) replaced by a marker"""
+    done = []
+
+    def visit(node):
+        if isinstance(node, list):
+            return [visit(x) for x in node]
+        if not isinstance(node, dict):
+            return node
+        if not done and _is_string_match(node):
+            done.append(1)
+            return {"k": "ArmTable", "on": node["e"]}
+        return {k: visit(v) for k, v in node.items()}
+    return visit(body)
+
+
+FOLDS = ("to_uppercase", "to_ascii_uppercase", "to_lowercase", "to_ascii_lowercase", "make_ascii_uppercase", "make_ascii_lowercase",
+         "eq_ignore_ascii_case")
+
+
+def _folds(node):
+    out = set()
+
+    def v(n):
+        for x in n.values():
+            if isinstance(x, str) and x in FOLDS:
+                out.add(x)
+    A.walk(node, v)
+    return out
+
+
+def _validators(node):
+    """names of functions called as `path(..)?;` with the value discarded (a call that can only reject)"""
+    out = set()
+
+    def v(n):
+        if n.get("k") == "Expr" and n.get("semi") and isinstance(n.get("e"), dict) and n["e"].get("k") == "Try":
+            c = n["e"].get("e")
+            if isinstance(c, dict) and c.get("k") == "Call" and isinstance(c.get("f"), dict) and c["f"].get("k") == "Path":
+                out.add(c["f"]["p"].rsplit("::", 1)[-1])
+            if isinstance(c, dict) and c.get("k") == "MethodCall":
+                out.add(c["m"])
+    A.walk(node, v)
+    return out
+
+
 def _r161(ck, tree):
     f1 = A.find_fn(tree, "from_resp", "Command")
     f2 = A.find_fn(tree, "from_resp_zero_copy", "Command")
@@ -127,6 +173,12 @@ def _r161(ck, tree):
     t1 = arm_table(_main_match(f1))
     t2 = arm_table(_main_match(f2))
     ck.floor("R16.1-arms", min(len(t1), len(t2)), 150)
+    # what surrounds the arm table (how the command name is taken from the frame and case-folded, what a non-array frame
+    # answers) is part of the grammar as well
+    fr1, fr2 = _frame(f1["body"]), _frame(f2["body"])
+    ck.check(A.normal_form(fr1, RENAME) == A.normal_form(fr2, RENAME), "R16.1", "frame",
+             "the two parsers derive the command name / reject a malformed frame differently: %s" % _first_diff(fr1, fr2),
+             "src/redis/commands.rs:%d" % f2["ln"], detail="equal normal forms around the arm table")
     for key in sorted(set(t1) | set(t2)):
         if key not in t1:
             ck.bad("R16.1", "arm:%s:only-in-zero-copy" % key, "the production (zero-copy) parser accepts `%s` but Command::from_resp has no such arm: "
@@ -283,6 +335,16 @@ def _r163(ck, tree):
     ck.floor("R16.3-lua-arms", len(top2), 30)
     ck.extra["lua_commands"] = len(top2)
     ck.extra["resp_commands"] = len([k for k in t1 if "/" not in k and k != "_"])
+    # the command name itself is folded the same way on both paths
+    fo1, fo2 = _folds(_frame(resp[0]["body"])), _folds(_frame(lua[0]["body"]))
+    ck.check(fo1 == fo2 and len(fo1) == 1, "R16.3", "lua:command-name-folding",
+             "the command name is case-folded with %s from a client and with %s from redis.call: a name that only one folding maps onto a "
+             "command is a different command on the two paths" % (sorted(fo1), sorted(fo2)), "src/redis/executor/script_ops.rs:%d" % lua[0]["ln"],
+             detail="both fold with %s" % sorted(fo1))
+    nval = 0
+    probe = {"k": "Block", "stmts": [{"k": "Expr", "semi": True, "e": {"k": "Try", "e": {"k": "Call", "f": {"k": "Path", "p": "Self::check_probe"}, "args": []}}}]}
+    ck.check(_validators(probe) == {"check_probe"}, "R16.3", "lua:validators:probe", "the reject-only-call matcher no longer recognises `Self::check(..)?;`",
+             "rules/c16.py", detail="positive example matched")
     for cmd in top2:
         if cmd not in t1:
             ck.bad("R16.3", "lua:%s:unknown-to-resp-parser" % cmd, "redis.call('%s', ..) is accepted by the Lua translator but the RESP parser has no such command" % cmd,
@@ -305,6 +367,15 @@ def _r163(ck, tree):
                  "argument positions whose keyword case is normalised differ: script path %s vs client path %s: a keyword spelled in lower/mixed "
                  "case is understood by one path and misread by the other" % (sorted(s2["upper"]), sorted(s1["upper"])), where,
                  detail="case normalisation at the same positions %s" % sorted(s1["upper"]))
+        # a call that can only reject (`Self::check_x(..)?;`, value discarded) in the client arm must guard the script arm too:
+        # otherwise operands refused from a client are accepted from redis.call and reach the executor
+        v1 = _validators(_expand_nested(t1, cmd))
+        v2 = _validators(_expand_nested(t2, cmd))
+        nval += len(v1)
+        ck.check(v1 <= v2, "R16.3", "lua:%s:validators" % cmd,
+                 "the client path rejects operands of %s through %s before building the command; redis.call builds the same command without "
+                 "that test, so the same operands are refused from a client and executed from a script" % (cmd, sorted(v1 - v2)), where,
+                 detail="reject-only calls in the client arm: %s" % sorted(v1))
         extra = s2["keywords"] - s1["keywords"]
         missing = s1["keywords"] - s2["keywords"]
         ck.check(not extra, "R16.3", "lua:%s:unknown-keywords" % cmd,
